@@ -385,6 +385,50 @@ def _compare_state(R, m, mx, dcf, dcs, dxf, dxs, x64, P, smap, integ):
     return problems, {"nact": nact, "contact_dependent_ok": contact_dependent_ok}
 
 
+def _count_engaged(mj, m, dcf, P):
+    """which clamps / force sources are ACTIVE in this state (C engine's forward data): presence of a feature in the model is
+    not enough, the interaction has to engage"""
+    dis = int(m.opt.disableflags)
+    actuation = m.nu and not dis & int(mj.mjtDisableBit.mjDSBL_ACTUATION)
+    if actuation:
+        fr, af = np.array(m.actuator_forcerange), np.array(dcf.actuator_force)[:m.nu]
+        fl = np.array(m.actuator_forcelimited).astype(bool)
+        if np.any(fl & ((af <= fr[:, 0]) | (af >= fr[:, 1]))):
+            P.count("engaged[actuator_forcerange_clamp]")
+        if np.any(fl & (af > fr[:, 0]) & (af < fr[:, 1]) & (af != 0)):
+            P.count("engaged[actuator_forcerange_present_not_clamping]")
+        cl, cr, ct = np.array(m.actuator_ctrllimited).astype(bool), np.array(m.actuator_ctrlrange), np.array(dcf.ctrl)
+        if not dis & int(mj.mjtDisableBit.mjDSBL_CLAMPCTRL) and np.any(cl & ((ct < cr[:, 0]) | (ct > cr[:, 1]))):
+            P.count("engaged[ctrlrange_clamp]")
+    jl = np.array(m.jnt_actfrclimited).astype(bool)
+    if m.nv and jl.any():
+        dj = np.array(m.dof_jntid)
+        rng_ = np.array(m.jnt_actfrcrange)[dj]
+        qa = np.array(dcf.qfrc_actuator)
+        on = jl[dj] & ((qa <= rng_[:, 0] + 1e-12) | (qa >= rng_[:, 1] - 1e-12))
+        if on.any():
+            P.count("engaged[jnt_actfrcrange_clamp]")
+            gc = np.array(dcf.qfrc_gravcomp) * np.array(m.jnt_actgravcomp)[dj]
+            if np.any(on & (gc != 0)):
+                P.count("engaged[jnt_actfrcrange_clamp_on_dof_with_actuator_gravcomp]")
+                if actuation and np.any(on & (gc != 0) & (np.abs(qa - gc) > 0)):
+                    P.count("engaged[jnt_actfrcrange_clamp+actuator_gravcomp+actuator_force_on_same_dof]")
+        if np.any(jl[dj] & ~on & (qa != 0)):
+            P.count("engaged[jnt_actfrcrange_present_not_clamping]")
+    if m.nv and np.any(np.array(dcf.qfrc_gravcomp) != 0):
+        P.count("engaged[gravcomp_force]")
+    if m.neq:
+        ne_static = int(sum({int(mj.mjtEq.mjEQ_CONNECT): 3, int(mj.mjtEq.mjEQ_WELD): 6}.get(int(t), 1) for t in m.eq_type))
+        if not dis & int(mj.mjtDisableBit.mjDSBL_EQUALITY) and int(dcf.ne) < ne_static:
+            P.count("engaged[inactive_equality(d.ne<ne)]")
+            if int(dcf.nf) or int(dcf.nl):
+                P.count("engaged[inactive_equality_with_friction_or_limit_rows]")
+    if int(dcf.nf):
+        P.count("engaged[frictionloss_rows]")
+    if int(dcf.nl):
+        P.count("engaged[limit_rows]")
+
+
 def _pkey(name, det):
     """Identity of a difference inside one state (used to ask whether it survives a counterfactual re-run)."""
     if not isinstance(det, dict):
@@ -424,6 +468,14 @@ def check_model(R, xml, tags, states, P, x64=True, detail_base=None):
     integ = [t for t in tags if t.startswith("int:")][0]
     smap = _sensor_stage_map(R, m)
     from .. import mjxrepo
+    if not gate_tags:
+        for t in sorted(mjxrepo.feature_classes(tags)):
+            P.count("feature[%s]" % t)
+        P.count("feature[%s]" % integ)
+        P.count("feature[cone:%s]" % mj.mjtCone(m.opt.cone).name[7:].lower())
+        for fl in mjxrepo.FEATURE_FLAGS:
+            if int(m.opt.disableflags) & int(getattr(mj.mjtDisableBit, "mjDSBL_" + fl[5:].upper())):
+                P.count("feature[%s]" % fl)
     for si, st in enumerate(states):
         d = mj.MjData(m)
         mjxrepo.set_state_dict(m, d, st)
@@ -476,6 +528,7 @@ def check_model(R, xml, tags, states, P, x64=True, detail_base=None):
             P.count("states_with_constraint_rows")
         P.note_max("active_contacts", nact)
         P.note_max("nefc", nrow)
+        _count_engaged(mj, m, dcf, P)
         if not problems:
             continue
         P.count("states_with_differences")
@@ -1089,7 +1142,7 @@ def worker(case):
         states = mjxrepo.capcap_states(R, rng, m, R.mujoco.MjData(m), case["nstates"])
     else:
         xml, tags = mjxrepo.gen_model(rng, case["profile"], small=case.get("small", False),
-                                      integrator=case.get("integrator"))
+                                      integrator=case.get("integrator"), want=case.get("want", ()))
         states = None
     if states is None:
         try:
@@ -1110,9 +1163,13 @@ def _cases(ctx):
     n = ctx.pick(16, 240)
     cases = []
     profs = ["contact", "constrained", "contact", "smooth", "gate", "contact", "constrained", "contact"]
+    from .. import mjxrepo
+    idx = [i for i in range(n) if profs[i % len(profs)] != "gate"]
+    agenda = dict(zip(idx, mjxrepo.feature_agenda(ctx.seed, len(idx), lambda j: profs[idx[j] % len(profs)] == "contact")))
     for i in range(n):
         prof = profs[i % len(profs)]
         cases.append({"key": int(core.stable_hash("C43", ctx.seed, i)), "profile": prof, "x64": (i % 8) != 7,
+                      "want": agenda.get(i, []),
                       "nstates": ctx.pick(2, 3), "small": ctx.quick or i % 2 == 0,
                       "integrator": "RK4" if i % 10 == 9 else (None if not ctx.quick else ["Euler", "implicitfast"][i % 2])})
     # capsule-capsule pairs in clipped segment-segment configurations (the narrow phase's clip-then-refine branch): two pairs
@@ -1137,6 +1194,23 @@ def run(ctx):
             continue
         ctx.merge(r)
     ctx.min_nontrivial = ctx.pick(10, 120)
+    from .. import mjxrepo
+    required = (list(dict.fromkeys(mjxrepo.FEATURE_GENERAL)) + mjxrepo.FEATURE_CONTACT + mjxrepo.feature_sensors()
+                + mjxrepo.FEATURE_FLAGS + ["int:Euler", "int:implicitfast", "int:RK4", "cone:pyramidal", "cone:elliptic",
+                                           "jnt:free", "geom:sphere", "geom:capsule", "capcap"])
+    required = [r for r in required if not r.startswith(("solver:", "jac:"))] + ["solver:Newton", "solver:CG"]
+    never = [r for r in required if not ctx.counters.get("feature[%s]" % r)]
+    engaged_required = ["actuator_forcerange_clamp", "actuator_forcerange_present_not_clamping", "ctrlrange_clamp",
+                        "jnt_actfrcrange_clamp", "jnt_actfrcrange_clamp_on_dof_with_actuator_gravcomp",
+                        "jnt_actfrcrange_clamp+actuator_gravcomp+actuator_force_on_same_dof", "gravcomp_force",
+                        "inactive_equality(d.ne<ne)", "inactive_equality_with_friction_or_limit_rows", "frictionloss_rows",
+                        "limit_rows"]
+    never += ["engaged:" + r for r in engaged_required if not ctx.counters.get("engaged[%s]" % r)]
+    ctx.extra["feature_classes_required"] = len(required) + len(engaged_required)
+    ctx.extra["feature_classes_never_generated"] = never
+    if never:
+        ctx.inconclusive("feature classes of doc/mjx.rst Feature Parity / the flag list never generated or never engaged: %s"
+                         % ", ".join(never))
     if ctx.counters.get("worker_failures", 0) > len(cases) // 4:
         ctx.inconclusive("too many worker failures (%d of %d)" % (ctx.counters["worker_failures"], len(cases)))
     ctx.extra["skew_dropped_fields"] = SKEW
